@@ -1,9 +1,11 @@
 import XdslModel.Prelude
 /-!
 Model of `Operation/Block/Region.is_structurally_equivalent` (`xdsl/ir/core.py`, C03), as
-repaired by the `fix:` commit of C03 (result types compared; block arguments and operation
+repaired by the `fix:` commits of C03 (result types compared; block arguments and operation
 results of a block are put in the context before its operations are compared; the parent check
-only applies when the parent is in the context).
+only applies when the parent is in the context; a call without a context ends with
+`_is_one_to_one_on_outside_uses`: nothing the first tree takes from outside may be a definition of
+the second).
 
 IR trees.  One non-nested inductive type holds the three kinds of IR node *and* the three kinds of
 sequence (operations of a block, blocks of a region, regions of an operation): every constructor
@@ -109,8 +111,30 @@ def eqT : T → T → Ctx → Option Ctx
     | none => none
   | _, _, _ => none
 
-/-- `a.is_structurally_equivalent(b)` with `context=None` -/
-def structEq (a b : T) : Bool := (eqT a b []).isSome
+/-- ids of everything referred to: operands and successors
+(`for op in node.walk(): for use in (*op.operands, *op.successors)`) -/
+def uses : T → List Nat
+  | .nil => []
+  | .op h rs n => h.operands ++ (h.succs ++ (uses rs ++ uses n))
+  | .block _ _ o n => uses o ++ uses n
+  | .region bs n => uses bs ++ uses n
+
+/-- `x in set(context.values())`: some key still maps to `x` -/
+def isImage (c : Ctx) (x : Nat) : Bool :=
+  c.any (fun q => AL.get c q.1 == some q.2 && q.2 == x)
+
+/-- `_is_one_to_one_on_outside_uses(self, context)`: no operand or successor that is not a key of
+the context (taken from outside, it corresponds to itself) is one of its values (a definition of
+the other tree) -/
+def oneToOne (c : Ctx) (a : T) : Bool :=
+  (uses a).all (fun u => (AL.get c u).isSome || !isImage c u)
+
+/-- `a.is_structurally_equivalent(b)` with `context=None`: the walk from an empty context, then the
+one-to-one check on the context it left behind -/
+def structEq (a b : T) : Bool :=
+  match eqT a b [] with
+  | some c => oneToOne c a
+  | none => false
 
 /-! ## Specification side: definitions, uses, positional pairing, the isomorphism decision -/
 
@@ -123,13 +147,6 @@ def defs : T → List Nat
   | .op h rs n => ids h.results ++ (defs rs ++ defs n)
   | .block i a o n => i :: (ids a ++ (defs o ++ defs n))
   | .region bs n => defs bs ++ defs n
-
-/-- ids of everything referred to: operands and successors -/
-def uses : T → List Nat
-  | .nil => []
-  | .op h rs n => h.operands ++ (h.succs ++ (uses rs ++ uses n))
-  | .block _ _ o n => uses o ++ uses n
-  | .region bs n => uses bs ++ uses n
 
 def zipIds : List (Nat × Nat) → List (Nat × Nat) → List (Nat × Nat)
   | (x, _) :: xs, (y, _) :: ys => (x, y) :: zipIds xs ys
